@@ -94,6 +94,25 @@ func (r *Run) buildAndSolve(fns []*ssa.Function) {
 			} else {
 				vc.cross = r.tier == "thorough"
 				vc.Solve(r.dump, quickMs, raceS)
+				if fc := r.eng.contractOf(f); fc != nil && len(fc.AltLoops) > 0 && vc.anyOpen() {
+					// the loop was rewritten in a way the primary invariant does not follow: the
+					// contract's alternative invariant set is an equally valid argument
+					if vc2, err2 := r.eng.BuildVCAlt(f, r.prop); err2 == nil {
+						vc2.cross = vc.cross
+						vc2.Solve(r.dump, quickMs, raceS)
+						if os.Getenv("GOVC_DBG_ALT") != "" {
+							for _, o := range vc2.obls {
+								if !o.Cover && o.Status != "discharged" && o.Status != "unclaimed" {
+									fmt.Fprintln(os.Stderr, "ALT-OPEN", o.Name, o.Status)
+								}
+							}
+						}
+						if !vc2.anyOpen() {
+							vc2.note("proved with the alternative loop invariant set of the contract (`loop N altinvariant`)")
+							vc = vc2
+						}
+					}
+				}
 			}
 			mu.Lock()
 			r.vcs = append(r.vcs, vc)
@@ -125,6 +144,16 @@ func (r *Run) buildAndSolve(fns []*ssa.Function) {
 	}
 	wg.Wait()
 	sort.Slice(r.vcs, func(i, j int) bool { return r.vcs[i].fn.String() < r.vcs[j].fn.String() })
+}
+
+// anyOpen: some obligation of the function is not discharged (covers: not covered).
+func (vc *VC) anyOpen() bool {
+	for _, o := range vc.obls {
+		if !o.Cover && o.Status != "discharged" && o.Status != "unclaimed" {
+			return true
+		}
+	}
+	return false
 }
 
 func (r *Run) Main() int {
@@ -164,6 +193,7 @@ func (r *Run) Main() int {
 		r.eng.sweepMode = true
 		fns = unionFuncs(r.eng.LockingFunctions(), fns)
 	}
+	fns = unionFuncs(r.eng.CondSignalFunctions(r.prop), fns)
 	if r.prop == "C09" {
 		r.eng.sweepMode = true
 		fns = unionFuncs(r.eng.GuardedAccessFunctions("C09"), fns)
